@@ -34,6 +34,31 @@ Theorem c20_matches_verifier : forall w ch x,
   wf_window w -> In x (verifier_window w ch) <-> In x (set_spec w ch).
 Proof. exact view_matches_verifier. Qed.
 
+(* the view is a function of the chain alone: histories ending on the same
+   chain end with the same committable and gap sets *)
+Theorem c20_view_history_independent : forall w, wf_window w -> forall ops1 ops2,
+  ops_ok [[]] ops1 -> ops_ok [[]] ops2 ->
+  let s1 := prun_state w (genesis_state []) ops1 in
+  let s2 := prun_state w (genesis_state []) ops2 in
+  p_chain s1 = p_chain s2 ->
+  v_set (p_view s1) = v_set (p_view s2) /\ v_gap (p_view s1) = v_gap (p_view s2).
+Proof. exact view_history_independent. Qed.
+
+(* a restart at any point of any history rebuilds the view the node holds *)
+Theorem c20_restart_any_time : forall w, wf_window w -> forall ops,
+  ops_ok [[]] ops ->
+  let s := prun_state w (genesis_state []) ops in
+  v_set (snd (init_table w (p_chain s))) = v_set (p_view s) /\
+  v_gap (snd (init_table w (p_chain s))) = v_gap (p_view s).
+Proof. exact restart_any_time. Qed.
+
+(* after any history: offered for commitment <-> accepted by the verifier's walk *)
+Theorem c20_view_always_matches_verifier : forall w, wf_window w -> forall ops x,
+  ops_ok [[]] ops ->
+  let s := prun_state w (genesis_state []) ops in
+  In x (v_set (p_view s)) <-> In x (verifier_window w (p_chain s)).
+Proof. exact view_always_matches_verifier. Qed.
+
 (* the consensus window read from spec/src/consensus.rs on this run meets the
    side condition of the theorems *)
 Theorem c20_params_ok : wf_window tx_proposal_window.
@@ -66,6 +91,9 @@ Redirect "out/C20.c20_view_eq_spec" Print Assumptions c20_view_eq_spec.
 Redirect "out/C20.c20_removed_exact" Print Assumptions c20_removed_exact.
 Redirect "out/C20.c20_init_eq_incremental" Print Assumptions c20_init_eq_incremental.
 Redirect "out/C20.c20_matches_verifier" Print Assumptions c20_matches_verifier.
+Redirect "out/C20.c20_view_history_independent" Print Assumptions c20_view_history_independent.
+Redirect "out/C20.c20_restart_any_time" Print Assumptions c20_restart_any_time.
+Redirect "out/C20.c20_view_always_matches_verifier" Print Assumptions c20_view_always_matches_verifier.
 Redirect "out/C20.c20_params_ok" Print Assumptions c20_params_ok.
 Redirect "out/C20.c20_example_ok" Print Assumptions c20_example_ok.
 Redirect "out/C20.c20_example_nontrivial" Print Assumptions c20_example_nontrivial.
